@@ -11,6 +11,9 @@ CORPUS = [
     ("(set (r (tag e c 0 int)) (r (tag e c 1 bool)))", "(seq (i 1) (b 1))"),                  # SET order by outermost tag
     ("(set (r (tag e c 1 bool)) (r (tag e c 0 int)))", "(seq (b 1) (i 1))"),
     ("(setof (str 4))", "(of (s 6162) (s 61) (s 616200) (s 6161))"),                          # SET OF padded order
+    ("(seq (r int) (d (of (i 1) (i 2)) (seqof int)))", "(seq (i 5) (of))"),                   # DEFAULT of constructed type: empty value, non-empty default
+    ("(seq (r int) (d (seq (i 9)) (tag i c 1 (seq (o int)))))", "(seq (i 5) (seq absent))"),
+    ("(seq (r int) (d (of (i 1) (i 2)) (seqof int)))", "(seq (i 5) (of (i 1) (i 2)))"),
 ]
 
 
@@ -129,7 +132,7 @@ def check_case(rep, drv, case, rng=None):
         sig = None
         if sigs.e3_applies(case.t, case.v):
             sig = 'E3-empty-optional-omitted'
-        elif sigs.has_constructed_default(case.t):
+        elif sigs.t11(case):
             sig = 'T11-default-of-constructed-type'
         rep.fail(sig or 'der-differs-from-x690', 'DER %s, X.690 reference %s' % (ie[1].hex()[:160], ref.hex()[:160]),
                  dict(case.replay, kind='der', impl=ie[1].hex(), reference=ref.hex()))
@@ -147,7 +150,7 @@ def check_case(rep, drv, case, rng=None):
         ok = md[0] == 'ok' and md[2] == b'' and gen.val_equiv(case.t, md[1], case.v)
         if not ok:
             sig = sigs.classify_roundtrip(case.t, case.v, cdc, dm)
-            if sig is None and md[0] == 'ok' and sigs.has_constructed_default(case.t):
+            if sig is None and md[0] == 'ok' and sigs.t11(case):
                 sig = 'T11-default-of-constructed-type'
             rep.fail(sig or 'output-does-not-denote-value',
                      '%s output read by the X.690 reader: %r' % (cdc, (md[0], gen.val_sexp(md[1])[:160]) if md[0] == 'ok' else md),
